@@ -2,8 +2,11 @@ package main
 
 import (
 	"bytes"
+	"encoding/gob"
 	"encoding/json"
 	"fmt"
+	"github.com/itchio/lake/tlc"
+	"github.com/itchio/wharf/pwr/bowl"
 	"io"
 	"os"
 	"strings"
@@ -289,6 +292,9 @@ func c14One(env *Env, m *wvlib.Model, c *C14Case) {
 	if ans != impl {
 		env.R.Disagree(c, impl, ans, "see violations")
 	}
+	if c.Seed%3 == 0 {
+		c14BowlSessions(env, c, old, nw)
+	}
 	nSkip := strings.Count(ops, "S ")
 	nFresh := strings.Count(ops, "F ")
 	env.R.Eval(c.Seed, nSkip > 0 && nFresh > 0)
@@ -309,9 +315,141 @@ func c14One(env *Env, m *wvlib.Model, c *C14Case) {
 	}
 }
 
+// c14BowlSessions drives the same (old, new) through the REAL in-place entry writer of the overlay bowl in two
+// sessions: session 1 writes a prefix, saves a checkpoint (gob round trip), keeps writing and saving (so that the
+// staged overlay holds ops beyond the checkpoint), then dies; session 2 is a brand-new bowl and writer resumed from
+// the FIRST checkpoint, which writes the rest; Commit must leave exactly the new content.
+func c14BowlSessions(env *Env, c *C14Case, old, nw []byte) {
+	if len(old) == 0 || len(nw) < 2 {
+		return
+	}
+	r := wvlib.NewRng(c.Seed ^ 0xb0b1)
+	base := env.Scratch.Sub("c14bowl")
+	defer os.RemoveAll(base)
+	dir, ndir, stage := base+"/dir", base+"/new", base+"/stage"
+	(&wvlib.Build{Entries: []wvlib.BEntry{{Path: "f.bin", Kind: 'f', Data: old}}}).Write(dir)
+	(&wvlib.Build{Entries: []wvlib.BEntry{{Path: "f.bin", Kind: 'f', Data: nw}}}).Write(ndir)
+	tc, err1 := tlc.WalkAny(dir, tlc.WalkOpts{})
+	sc, err2 := tlc.WalkAny(ndir, tlc.WalkOpts{})
+	if err1 != nil || err2 != nil {
+		return
+	}
+	mk := func() (bowl.Bowl, error) {
+		return bowl.NewOverlayBowl(bowl.OverlayBowlParams{SourceContainer: sc, TargetContainer: tc, OutputFolder: dir, StageFolder: stage, Consumer: quietConsumer})
+	}
+	fail := func(cls, det string) { env.R.Violate("bowl-sessions:"+cls, det, c) }
+	b1, err := mk()
+	if err != nil {
+		return
+	}
+	if err := b1.Resume(nil); err != nil {
+		fail("error", err.Error())
+		return
+	}
+	w1, err := b1.GetWriter(0)
+	if err != nil {
+		fail("error", err.Error())
+		return
+	}
+	if _, err := w1.Resume(nil); err != nil {
+		fail("error", err.Error())
+		return
+	}
+	a := r.Intn(len(nw))
+	if _, err := w1.Write(nw[:a]); err != nil {
+		fail("error", err.Error())
+		return
+	}
+	wck, err := w1.Save()
+	if err != nil {
+		fail("error", err.Error())
+		return
+	}
+	bck, err := b1.Save()
+	if err != nil {
+		fail("error", err.Error())
+		return
+	}
+	var gb bytes.Buffer
+	type both struct {
+		W *bowl.WriterCheckpoint
+		B *bowl.BowlCheckpoint
+	}
+	if err := gob.NewEncoder(&gb).Encode(&both{wck, bck}); err != nil {
+		fail("checkpoint-not-serialisable", err.Error())
+		return
+	}
+	// the session goes on after the checkpoint (more ops reach the staged overlay), then dies without closing
+	ahead := r.Intn(len(nw) - a + 1)
+	if ahead > 0 {
+		w1.Write(nw[a : a+ahead])
+		if r.Bool() {
+			w1.Save()
+		}
+	}
+	env.R.Count("bowl-sessions:bytes-written-after-the-checkpoint>0", int64(btoi(ahead > 0)))
+	// session 2: brand-new bowl and writer, checkpoint from its serialised form
+	var ck both
+	if err := gob.NewDecoder(bytes.NewReader(gb.Bytes())).Decode(&ck); err != nil {
+		fail("checkpoint-not-deserialisable", err.Error())
+		return
+	}
+	b2, err := mk()
+	if err != nil {
+		return
+	}
+	if err := b2.Resume(ck.B); err != nil {
+		fail("error", err.Error())
+		return
+	}
+	w2, err := b2.GetWriter(0)
+	if err != nil {
+		fail("error", err.Error())
+		return
+	}
+	off, err := w2.Resume(ck.W)
+	if err != nil {
+		fail("error", "resume: "+err.Error())
+		return
+	}
+	if off != int64(a) {
+		fail("resume-offset", fmt.Sprintf("writer resumed at %d, checkpoint was taken after %d bytes", off, a))
+		return
+	}
+	if _, err := w2.Write(nw[a:]); err != nil {
+		fail("error", err.Error())
+		return
+	}
+	if err := w2.Finalize(); err != nil {
+		fail("error", err.Error())
+		return
+	}
+	if err := w2.Close(); err != nil {
+		fail("error", err.Error())
+		return
+	}
+	if err := b2.Commit(); err != nil {
+		fail("error", "commit: "+err.Error())
+		return
+	}
+	b2.Close()
+	got, _ := os.ReadFile(dir + "/f.bin")
+	if !bytes.Equal(got, nw) {
+		fail("result-differs", fmt.Sprintf("checkpoint after %d bytes, %d more written before the crash: committed file has %d bytes (fnv %d), new has %d (fnv %d), first difference at %d", a, ahead, len(got), wvlib.Fnv(got), len(nw), wvlib.Fnv(nw), firstDiffBytes(got, nw)))
+	}
+	env.R.Count("bowl-sessions", 1)
+}
+
+func btoi(b bool) int {
+	if b {
+		return 1
+	}
+	return 0
+}
+
 func runC14(env *Env) {
 	R := env.R
-	R.Rule = "random (old,new,write/flush/session pattern) cases from boundary-directed shapes; distinct by seed; non-trivial = the overlay contains both SKIP and FRESH ops"
+	R.Rule = "random (old,new,write/flush/session pattern) cases from boundary-directed shapes; a third of them also through the real overlay bowl entry writer in two sessions (checkpoint, more writes, crash, brand-new bowl resumed from the checkpoint, Commit); distinct by seed; non-trivial = the overlay contains both SKIP and FRESH ops"
 	if env.Replay != "" {
 		var wrap struct {
 			Case C14Case `json:"case"`
